@@ -124,9 +124,6 @@ type Options struct {
 const (
 	defaultMaxProofs = 1
 	defaultMaxDepth  = 64
-	// maxCandidates bounds the body solutions tried for a rule whose head
-	// contains function expressions.
-	maxCandidates = 10000
 	// maxSearchSteps bounds the number of goals visited while looking for
 	// alternative proofs around derivation cycles.
 	maxSearchSteps = 20000
@@ -262,19 +259,19 @@ func (e *explainer) explain(goal ast.Atom, depth int) []*ProofNode {
 			continue
 		}
 		remaining := e.opts.MaxProofs - len(proofs)
+		var accept func(unionfind.UnionFind) bool
 		if headHasFn {
-			// Solutions whose head differs from the goal are discarded below.
-			remaining = maxCandidates
+			// Body solutions whose head differs from the goal are discarded
+			// before their premises are explained.
+			head := rule.Head
+			accept = func(subst unionfind.UnionFind) bool {
+				got, err := functional.EvalAtom(head, subst)
+				return err == nil && got.Equals(goal)
+			}
 		}
-		for _, sol := range e.solveBody(rulePremises, headUF, depth, remaining) {
+		for _, sol := range e.solveBody(rulePremises, headUF, depth, remaining, accept) {
 			if len(proofs) >= e.opts.MaxProofs {
 				break
-			}
-			if headHasFn {
-				head, err := functional.EvalAtom(rule.Head, sol.subst)
-				if err != nil || !head.Equals(goal) {
-					continue
-				}
 			}
 			proof, ok := e.buildProof(&e.program.Rules[ruleIdx], ruleIdx, rule, goal, sol, depth)
 			if !ok {
@@ -356,12 +353,17 @@ type bodySolution struct {
 	partial      bool
 }
 
-func (e *explainer) solveBody(premises []ast.Term, uf unionfind.UnionFind, depth, need int) []bodySolution {
-	return e.solveBodyRec(premises, uf, depth, need, nil, nil, false)
+// solveBody finds up to need solutions of the body. A solution that accept
+// (if not nil) refuses is dropped before its premises are explained.
+func (e *explainer) solveBody(premises []ast.Term, uf unionfind.UnionFind, depth, need int, accept func(unionfind.UnionFind) bool) []bodySolution {
+	return e.solveBodyRec(premises, uf, depth, need, nil, nil, false, accept)
 }
 
-func (e *explainer) solveBodyRec(premises []ast.Term, uf unionfind.UnionFind, depth, need int, accAtoms []ast.Atom, accProofs []*ProofNode, partial bool) []bodySolution {
+func (e *explainer) solveBodyRec(premises []ast.Term, uf unionfind.UnionFind, depth, need int, accAtoms []ast.Atom, accProofs []*ProofNode, partial bool, accept func(unionfind.UnionFind) bool) []bodySolution {
 	if len(premises) == 0 {
+		if accept != nil && !accept(uf) {
+			return nil
+		}
 		// All body literals hold in the store under uf. Only now explain the
 		// premise facts: explaining them earlier would explore facts that a
 		// later literal of the body rules out.
@@ -385,7 +387,7 @@ func (e *explainer) solveBodyRec(premises []ast.Term, uf unionfind.UnionFind, de
 	first, rest := premises[0], premises[1:]
 	switch p := first.(type) {
 	case ast.Atom:
-		return e.solveAtomPremise(p, rest, uf, depth, need, accAtoms, accProofs, partial)
+		return e.solveAtomPremise(p, rest, uf, depth, need, accAtoms, accProofs, partial, accept)
 	case ast.Eq:
 		// An equality may bind a variable, as during evaluation.
 		left, right, err := functional.EvalBaseTermPair(p.Left, p.Right, uf)
@@ -396,18 +398,18 @@ func (e *explainer) solveBodyRec(premises []ast.Term, uf unionfind.UnionFind, de
 		if err != nil {
 			return nil
 		}
-		return e.solveBodyRec(rest, extended, depth, need, accAtoms, accProofs, partial)
+		return e.solveBodyRec(rest, extended, depth, need, accAtoms, accProofs, partial, accept)
 	case ast.Ineq:
 		ok, err := evalEq(p.Left, p.Right, uf, false)
 		if err != nil || !ok {
 			return nil
 		}
-		return e.solveBodyRec(rest, uf, depth, need, accAtoms, accProofs, partial)
+		return e.solveBodyRec(rest, uf, depth, need, accAtoms, accProofs, partial, accept)
 	case ast.NegAtom:
 		ground, err := functional.EvalAtom(p.Atom, uf)
 		if err != nil || !groundUpToWildcards(ground) {
 			// Non-ground negation slipped past safety checks; mark partial.
-			return e.solveBodyRec(rest, uf, depth, need, accAtoms, accProofs, true)
+			return e.solveBodyRec(rest, uf, depth, need, accAtoms, accProofs, true, accept)
 		}
 		if storeHasMatch(e.store, ground) {
 			// Negated premise fails: a matching atom IS in the store.
@@ -420,15 +422,15 @@ func (e *explainer) solveBodyRec(premises []ast.Term, uf unionfind.UnionFind, de
 		}
 		newAtoms := append(append([]ast.Atom(nil), accAtoms...), ground)
 		newProofs := append(append([]*ProofNode(nil), accProofs...), leaf)
-		return e.solveBodyRec(rest, uf, depth, need, newAtoms, newProofs, partial)
+		return e.solveBodyRec(rest, uf, depth, need, newAtoms, newProofs, partial, accept)
 	default:
 		// Temporal premises and any other exotic term — mark partial but
 		// continue so the user sees an annotated result rather than nothing.
-		return e.solveBodyRec(rest, uf, depth, need, accAtoms, accProofs, true)
+		return e.solveBodyRec(rest, uf, depth, need, accAtoms, accProofs, true, accept)
 	}
 }
 
-func (e *explainer) solveAtomPremise(pAtom ast.Atom, rest []ast.Term, uf unionfind.UnionFind, depth, need int, accAtoms []ast.Atom, accProofs []*ProofNode, partial bool) []bodySolution {
+func (e *explainer) solveAtomPremise(pAtom ast.Atom, rest []ast.Term, uf unionfind.UnionFind, depth, need int, accAtoms []ast.Atom, accProofs []*ProofNode, partial bool, accept func(unionfind.UnionFind) bool) []bodySolution {
 	pattern, err := functional.EvalAtom(pAtom, uf)
 	if err != nil {
 		return nil
@@ -445,7 +447,7 @@ func (e *explainer) solveAtomPremise(pAtom ast.Atom, rest []ast.Term, uf unionfi
 		// The sub-proof is filled in once the whole body has a solution.
 		newAtoms := append(append([]ast.Atom(nil), accAtoms...), fact)
 		newProofs := append(append([]*ProofNode(nil), accProofs...), nil)
-		tail := e.solveBodyRec(rest, extended, depth, need-len(results), newAtoms, newProofs, partial)
+		tail := e.solveBodyRec(rest, extended, depth, need-len(results), newAtoms, newProofs, partial, accept)
 		results = append(results, tail...)
 		return nil
 	})
